@@ -262,6 +262,7 @@ class GeneratorOutput:
         """Update instance attributes recursively."""
         objects.update(self, **kwargs)
         self.format.validate()
+        self.validate()
 
 
 @dataclass
